@@ -239,6 +239,20 @@ def _strip(snap):
     return json.dumps(snap, sort_keys=True, default=str)
 
 
+def _mask_flags(x, kinds):
+    """Canonical snapshot with the identity/hash-consistency flags of the given node kinds blanked,
+    to name what a difference consists of (the label only; any difference is a violation)."""
+    if isinstance(x, dict):
+        return {k: _mask_flags(v, kinds) for k, v in x.items()}
+    if isinstance(x, list):
+        y = [_mask_flags(v, kinds) for v in x]
+        if y and isinstance(y[0], str) and y[0] in kinds and isinstance(y[-1], bool):
+            if (y[0] in ("kw", "sym") and len(y) == 4) or (y[0] == "set" and len(y) == 3) or (y[0] == "map" and len(y) == 4):
+                y[-1] = None
+        return y
+    return x
+
+
 def _diff(a, b):
     """First differing Var between two snapshots (for the report)."""
     for k in sorted(set(a) | set(b)):
@@ -364,8 +378,11 @@ def _run(workload, scratch):
         if _strip(rep["snapshot"]) != _strip(ref["snapshot"]):
             d = _diff(rep["snapshot"], ref["snapshot"])
             which = ("cached:cross-seed" if writer_hs != hsi else "cached:same-seed") if used_cache else "source"
-            kindsig = "keyword-identity" if d and "true" in json.dumps(d).lower() and "false" in json.dumps(d).lower() \
-                and "kw" in json.dumps(d) else "snapshot"
+            kindsig = "snapshot"
+            for label, kinds in (("keyword-identity", ("kw",)), ("stale-hash", ("kw", "sym", "set", "map"))):
+                if _mask_flags(_strip(rep["snapshot"]), kinds) == _mask_flags(_strip(ref["snapshot"]), kinds):
+                    kindsig = label
+                    break
             return R.verdict("violation", f"{ID}/not-equivalent-to-source:{which}:{kindsig}",
                              dict(det, diff=d, writer_seed=None if writer_hs is None else SERVER_SEEDS[writer_hs],
                                   reader_seed=SERVER_SEEDS[hsi]), faults=faults, extra=extra)
